@@ -217,3 +217,378 @@ Proof.
     assert (E : String.eqb n n' = false) by (apply String.eqb_neq; congruence). rewrite E. reflexivity.
   - destruct (mem (d_name d) (t_pre t')); [reflexivity|]. rewrite String.eqb_refl. simpl. apply mem_In. exact Hi.
 Qed.
+
+(* ==================================================================================================== *)
+(* shared counters and consumable capacity: the pessimistic-maximum ledger                              *)
+(* ==================================================================================================== *)
+Lemma pmaxl_nonneg : forall f its, 0 <= pmaxl f its.
+Proof. intros f its. induction its as [|a t IH]; simpl; lia. Qed.
+
+Lemma pmaxl_ge : forall f its it, In it its -> f it <= pmaxl f its.
+Proof.
+  intros f its it. induction its as [|a t IH]; intros H; [destruct H|]. simpl. destruct H as [H|H]; [subst; lia|].
+  specialize (IH H). lia.
+Qed.
+
+Lemma pmaxl_le : forall f its B, 0 <= B -> (forall it, In it its -> f it <= B) -> pmaxl f its <= B.
+Proof.
+  intros f its B HB. induction its as [|a t IH]; intros H; simpl; [exact HB|].
+  assert (f a <= B) by (apply H; left; reflexivity). assert (pmaxl f t <= B) by (apply IH; intros; apply H; right; assumption). lia.
+Qed.
+
+Fixpoint lsum (f : ncid -> Z) (ns : list ncid) : Z := match ns with [] => 0 | n :: t => f n + lsum f t end.
+
+Lemma lsum_ext : forall f g ns, (forall n, In n ns -> f n = g n) -> lsum f ns = lsum g ns.
+Proof.
+  intros f g ns. induction ns as [|a t IH]; intros H; simpl; [reflexivity|].
+  rewrite (H a (or_introl eq_refl)), IH; [reflexivity|]. intros n Hn. apply H. right. exact Hn.
+Qed.
+
+Lemma lsum_upd : forall f g ns n, NoDup ns -> In n ns -> (forall n', n' <> n -> g n' = f n') ->
+  lsum g ns = lsum f ns - f n + g n.
+Proof.
+  intros f g ns n. induction ns as [|a t IH]; intros Hnd Hin Hg; [destruct Hin|]. inversion Hnd; subst. simpl.
+  destruct (String.eqb_spec a n) as [E|E].
+  - subst a. assert (lsum g t = lsum f t). { apply lsum_ext. intros n' Hn'. apply Hg. intros ->. contradiction. } lia.
+  - destruct Hin as [Hin|Hin]; [congruence|]. rewrite (IH H2 Hin Hg). rewrite (Hg a E). lia.
+Qed.
+
+Lemma lsum_nonneg : forall f ns, (forall n, 0 <= f n) -> 0 <= lsum f ns.
+Proof. intros f ns H. induction ns as [|a t IH]; simpl; [lia|]. specialize (H a). lia. Qed.
+
+Lemma posd_nonneg_id : forall d, 0 <= d -> posd d = d.
+Proof. intros d H. unfold posd. destruct (0 <? d) eqn:E; [reflexivity|]. apply Z.ltb_ge in E. lia. Qed.
+
+Lemma find_cons_some : forall it new c, find_cons it new = Some c -> In (it, c) new.
+Proof.
+  intros it new c H. unfold find_cons in H. destruct (find (fun p => String.eqb (fst p) it) new) as [[it' c']|] eqn:E; [|discriminate].
+  apply find_some in E. destruct E as [Hin He]. simpl in He. apply String.eqb_eq in He. inversion H; subst. exact Hin.
+Qed.
+
+Lemma find_cons_none : forall it new, find_cons it new = None -> ~ In it (map fst new).
+Proof.
+  intros it new H Hin. unfold find_cons in H. destruct (find (fun p => String.eqb (fst p) it) new) eqn:E; [discriminate|].
+  apply in_map_iff in Hin. destruct Hin as [[it' c] [He Hin]]. simpl in He. subst it'.
+  apply (find_none _ _ E) in Hin. simpl in Hin. rewrite String.eqb_refl in Hin. discriminate.
+Qed.
+
+Lemma add_its_in : forall new its it, In it (add_its new its) <-> In it its \/ In it (map fst new).
+Proof.
+  unfold add_its. induction new as [|[a c] t IH]; intros its it; simpl; [tauto|]. rewrite IH. simpl.
+  destruct (mem a its) eqn:E.
+  - apply mem_In in E. split; [intros [H|H]; [left; exact H | right; right; exact H] | intros [H|[H|H]]; [left; exact H | subst; left; exact E | right; exact H]].
+  - rewrite in_app_iff. simpl. tauto.
+Qed.
+
+Section Ledger.
+  Variable ns : list ncid.
+  Hypothesis ns_nodup : NoDup ns.
+
+  (* what is charged equals a fresh recomputation: the sum over NodeClaims of the maximum over their instance types *)
+  Definition LInv (l : ledger) : Prop :=
+    (forall k, l_used l k = lsum (fun n => pmax l n k) ns) /\
+    (forall n it k, ~ In it (l_its l n) -> l_stored l n it k = 0) /\
+    (forall n it k, 0 <= l_stored l n it k).
+
+  Definition cons_nonneg (new : list (ity * cons)) : Prop := forall it c, In (it, c) new -> forall k, 0 <= look k c.
+
+  Lemma linit_inv : LInv linit.
+  Proof.
+    split; [|split]; simpl; intros; try lia; try reflexivity.
+    unfold pmax. simpl. induction ns as [|a t IH]; simpl; [reflexivity|]. inversion ns_nodup; subst. rewrite <- IH; [reflexivity | assumption].
+  Qed.
+
+  Lemma lcommit_stored_ge : forall l n new n' it k, cons_nonneg new ->
+    l_stored l n' it k <= l_stored (lcommit l n new) n' it k.
+  Proof.
+    intros l n new n' it k Hnn. unfold lcommit. destruct (is_nil new); [lia|]. simpl.
+    destruct (String.eqb n' n); [|lia]. destruct (find_cons it new) as [c|] eqn:E; [|lia].
+    specialize (Hnn it c (find_cons_some _ _ _ E) k). lia.
+  Qed.
+
+  Lemma lcommit_its : forall l n new n', l_its (lcommit l n new) n' = if String.eqb n' n then add_its new (l_its l n) else l_its l n'.
+  Proof.
+    intros l n new n'. unfold lcommit. destruct new as [|p t]; simpl; [|reflexivity].
+    destruct (String.eqb_spec n' n); [subst; reflexivity | reflexivity].
+  Qed.
+
+  Lemma lcommit_other : forall l n new n' k, n' <> n -> pmax (lcommit l n new) n' k = pmax l n' k.
+  Proof.
+    intros l n new n' k Hne. unfold pmax. rewrite lcommit_its. apply String.eqb_neq in Hne. rewrite Hne.
+    unfold lcommit. destruct (is_nil new); [reflexivity|]. simpl. rewrite Hne. reflexivity.
+  Qed.
+
+  Lemma lcommit_used : forall l n new k,
+    l_used (lcommit l n new) k = l_used l k + posd (pmax (lcommit l n new) n k - pmax l n k).
+  Proof.
+    intros l n new k. unfold lcommit. destruct (is_nil new) eqn:E; simpl.
+    - rewrite Z.sub_diag. unfold posd. simpl. lia.
+    - reflexivity.
+  Qed.
+
+  Lemma lcommit_pmax_ge : forall l n new k, LInv l -> cons_nonneg new -> pmax l n k <= pmax (lcommit l n new) n k.
+  Proof.
+    intros l n new k Hinv Hnn. unfold pmax at 1. apply pmaxl_le; [apply pmaxl_nonneg|]. intros it Hit.
+    eapply Z.le_trans; [apply (lcommit_stored_ge l n new n it k Hnn)|].
+    apply (pmaxl_ge (fun it0 => l_stored (lcommit l n new) n it0 k)). rewrite lcommit_its, String.eqb_refl. apply add_its_in. left. exact Hit.
+  Qed.
+
+  Lemma lcommit_inv : forall l n new, LInv l -> In n ns -> cons_nonneg new -> LInv (lcommit l n new).
+  Proof.
+    intros l n new Hinv Hn Hnn. assert (Hinv' := Hinv). destruct Hinv' as [Hu [Hz Hp]]. split; [|split].
+    - intros k. rewrite lcommit_used, Hu. rewrite posd_nonneg_id by (assert (H := lcommit_pmax_ge l n new k Hinv Hnn); lia).
+      rewrite (lsum_upd (fun n0 => pmax l n0 k) (fun n0 => pmax (lcommit l n new) n0 k) ns n ns_nodup Hn); [lia|].
+      intros n' Hne. apply lcommit_other. exact Hne.
+    - intros n' it k Hni. rewrite lcommit_its in Hni. unfold lcommit. destruct (is_nil new) eqn:En.
+      + apply Hz. destruct new; [|discriminate]. simpl in Hni. destruct (String.eqb_spec n' n); [subst|]; exact Hni.
+      + simpl. destruct (String.eqb_spec n' n) as [E|E]; [|apply Hz; exact Hni]. subst n'.
+        assert (Hx : ~ In it (l_its l n) /\ ~ In it (map fst new)).
+        { split; intros Hx; apply Hni; apply add_its_in; [left|right]; exact Hx. }
+        destruct Hx as [H1 H2]. destruct (find_cons it new) as [c|] eqn:Ef.
+        * exfalso. apply H2. apply in_map_iff. exists (it, c). split; [reflexivity | apply find_cons_some; exact Ef].
+        * apply Hz. exact H1.
+    - intros n' it k. eapply Z.le_trans; [apply Hp | apply lcommit_stored_ge; exact Hnn].
+  Qed.
+
+  Lemma lrelease_pmax_le : forall l n its k, LInv l -> pmax (lrelease l n its) n k <= pmax l n k.
+  Proof.
+    intros l n its k [_ [_ Hp]]. unfold pmax at 1. apply pmaxl_le; [apply pmaxl_nonneg|]. intros it Hit. simpl in *.
+    rewrite String.eqb_refl in *. apply filter_In in Hit. destruct Hit as [Hit Hm]. apply negb_true_iff in Hm. rewrite Hm. simpl.
+    apply (pmaxl_ge (fun it0 => l_stored l n it0 k)). exact Hit.
+  Qed.
+
+  Lemma lrelease_other : forall l n its n' k, n' <> n -> pmax (lrelease l n its) n' k = pmax l n' k.
+  Proof. intros l n its n' k Hne. unfold pmax. simpl. apply String.eqb_neq in Hne. rewrite Hne. reflexivity. Qed.
+
+  Lemma lrelease_inv : forall l n its, LInv l -> In n ns -> LInv (lrelease l n its).
+  Proof.
+    intros l n its Hinv Hn. assert (Hinv' := Hinv). destruct Hinv' as [Hu [Hz Hp]]. split; [|split].
+    - intros k. change (l_used (lrelease l n its) k) with (l_used l k - posd (pmax l n k - pmax (lrelease l n its) n k)).
+      rewrite posd_nonneg_id by (assert (H := lrelease_pmax_le l n its k Hinv); lia). rewrite Hu.
+      rewrite (lsum_upd (fun n0 => pmax l n0 k) (fun n0 => pmax (lrelease l n its) n0 k) ns n ns_nodup Hn); [lia|].
+      intros n' Hne. apply lrelease_other. exact Hne.
+    - intros n' it k Hni. simpl in *. destruct (String.eqb_spec n' n) as [E|E]; simpl; [|apply Hz; exact Hni]. subst n'.
+      destruct (mem it its) eqn:Em; [reflexivity|]. apply Hz. intros Hx. apply Hni. apply filter_In. split; [exact Hx | rewrite Em; reflexivity].
+    - intros n' it k. simpl. destruct (String.eqb n' n && mem it its); [lia | apply Hp].
+  Qed.
+
+  (* a guarded commit keeps every budget respected *)
+  Lemma lcommit_within : forall budget l n new, LInv l -> In n ns -> lguard budget l new ->
+    (forall k, l_used l k <= budget k) -> forall k, l_used (lcommit l n new) k <= budget k.
+  Proof.
+    intros budget l n new Hinv Hn [Hnd Hg] Hw k. assert (Hnn : cons_nonneg new) by (intros it c Hin k0; apply (Hg it c Hin k0)).
+    assert (Hinv' := Hinv). destruct Hinv' as [Hu [Hz Hp]].
+    rewrite lcommit_used. rewrite posd_nonneg_id by (assert (H := lcommit_pmax_ge l n new k Hinv Hnn); lia).
+    assert (Hb : pmax (lcommit l n new) n k <= budget k - l_used l k + pmax l n k).
+    { unfold pmax at 1. assert (H0 := pmaxl_nonneg (fun it => l_stored l n it k) (l_its l n)). fold (pmax l n k) in H0.
+      apply pmaxl_le; [specialize (Hw k); lia|]. intros it Hit.
+      assert (Hs : l_stored l n it k <= pmax l n k).
+      { destruct (in_dec string_dec it (l_its l n)) as [Hi|Hi]; [apply (pmaxl_ge (fun it0 => l_stored l n it0 k)); exact Hi | rewrite (Hz n it k Hi); exact H0]. }
+      unfold lcommit. destruct (is_nil new); [specialize (Hw k); lia|]. simpl. rewrite String.eqb_refl.
+      destruct (find_cons it new) as [c|] eqn:Ef.
+      - destruct (Hg it c (find_cons_some _ _ _ Ef) k) as [_ Hle]. lia.
+      - specialize (Hw k). lia. }
+    lia.
+  Qed.
+
+  Lemma lrelease_within : forall budget l n its, LInv l -> (forall k, l_used l k <= budget k) ->
+    forall k, l_used (lrelease l n its) k <= budget k.
+  Proof.
+    intros budget l n its Hinv Hw k. change (l_used (lrelease l n its) k) with (l_used l k - posd (pmax l n k - pmax (lrelease l n its) n k)).
+    rewrite posd_nonneg_id by (assert (H := lrelease_pmax_le l n its k Hinv); lia).
+    assert (H := lrelease_pmax_le l n its k Hinv). specialize (Hw k). lia.
+  Qed.
+
+  Lemma LInv_used_nonneg : forall l k, LInv l -> 0 <= l_used l k.
+  Proof. intros l k [Hu _]. rewrite Hu. apply lsum_nonneg. intros n. apply pmaxl_nonneg. Qed.
+End Ledger.
+
+Inductive lop := LCommit (n : ncid) (new : list (ity * cons)) | LRelease (n : ncid) (its : list ity).
+
+Definition lstep (l : ledger) (o : lop) : ledger :=
+  match o with LCommit n new => lcommit l n new | LRelease n its => lrelease l n its end.
+
+Definition lop_nc (o : lop) : ncid := match o with LCommit n _ | LRelease n _ => n end.
+
+(* every commit of the sequence passes the allocator's check in the state it is applied to *)
+Fixpoint lguarded (budget : key -> Z) (l : ledger) (ops : list lop) : Prop :=
+  match ops with
+  | [] => True
+  | o :: r => (match o with LCommit _ new => lguard budget l new | LRelease _ _ => True end) /\ lguarded budget (lstep l o) r
+  end.
+
+Lemma lrun_budget : forall budget ns ops l, NoDup ns -> (forall o, In o ops -> In (lop_nc o) ns) ->
+  LInv ns l -> (forall k, l_used l k <= budget k) -> lguarded budget l ops ->
+  let l' := fold_left lstep ops l in
+  LInv ns l' /\ forall k, 0 <= l_used l' k <= budget k.
+Proof.
+  intros budget ns ops. induction ops as [|o r IH]; intros l Hnd Hn Hinv Hw Hg; simpl.
+  - split; [exact Hinv|]. intros k. split; [eapply LInv_used_nonneg; eauto | apply Hw].
+  - simpl in Hg. destruct Hg as [Ho Hr]. assert (Hin : In (lop_nc o) ns) by (apply Hn; left; reflexivity).
+    apply IH; [exact Hnd | intros o' Ho'; apply Hn; right; exact Ho' | | | exact Hr].
+    + destruct o as [n new|n its]; simpl in *.
+      * apply lcommit_inv; [exact Hnd | exact Hinv | exact Hin|]. destruct Ho as [_ Hg]. intros it c Hc k. apply (Hg it c Hc k).
+      * apply lrelease_inv; assumption.
+    + destruct o as [n new|n its]; simpl in *.
+      * eapply lcommit_within; eauto.
+      * eapply lrelease_within; eauto.
+Qed.
+
+(* counters: remaining = initial - charged never goes below zero; capacity: preallocated + inflight never exceeds the
+   device capacity (budget = capacity - preallocated); and what is charged is exactly the worst case over each
+   NodeClaim's remaining instance types *)
+Lemma budgets_respected_l : forall budget ns ops, NoDup ns -> (forall o, In o ops -> In (lop_nc o) ns) ->
+  (forall k, 0 <= budget k) -> lguarded budget linit ops ->
+  let l := fold_left lstep ops linit in
+  (forall k, l_used l k = lsum (fun n => pmax l n k) ns) /\ (forall k, 0 <= budget k - l_used l k) /\ (forall k, 0 <= l_used l k <= budget k).
+Proof.
+  intros budget ns ops Hnd Hn Hb Hg. destruct (lrun_budget budget ns ops linit Hnd Hn (linit_inv ns Hnd) (fun k => Hb k) Hg) as [[Hu _] Hw].
+  split; [exact Hu|]. split; [intros k; specialize (Hw k); lia | exact Hw].
+Qed.
+
+(* the tracker applies the two ledgers component-wise *)
+Definition xop_cnt (o : xop) : list lop :=
+  match o with XCommit n _ cnt _ _ => [LCommit n cnt] | XRelease n its => [LRelease n its] | XIsAlloc _ _ _ => [] end.
+Definition xop_cap (o : xop) : list lop :=
+  match o with XCommit n _ _ cap _ => [LCommit n cap] | XRelease n its => [LRelease n its] | XIsAlloc _ _ _ => [] end.
+
+Lemma xrun_ledgers : forall ops x x', xrun x ops = Some x' ->
+  x_cnt x' = fold_left lstep (flat_map xop_cnt ops) (x_cnt x) /\ x_cap x' = fold_left lstep (flat_map xop_cap ops) (x_cap x).
+Proof.
+  induction ops as [|o r IH]; intros x x' H; simpl in H.
+  - inversion H; subst. split; reflexivity.
+  - destruct (fst (xstep x o)) as [x1|] eqn:E; [|discriminate]. destruct (IH x1 x' H) as [H1 H2]. rewrite H1, H2. clear IH H H1 H2.
+    destruct o as [n devs cnt cap tmpl|n its|d n it]; simpl in *.
+    + destruct (dcommit (x_excl x) n devs); simpl in E; [|discriminate]. inversion E; subst. split; reflexivity.
+    + destruct (drelease (x_excl x) n its); simpl in E; [|discriminate]. inversion E; subst. split; reflexivity.
+    + inversion E; subst. split; reflexivity.
+Qed.
+
+(* ==================================================================================================== *)
+(* a proposal that passed the allocator's guard never reaches a panic of Commit                          *)
+(* ==================================================================================================== *)
+Lemma dcommit1_guarded : forall t n it d, DInv t -> dis_allocated t d n it = false -> exists t', dcommit1 t n it d = Some t'.
+Proof.
+  intros t n it d Hinv Hg. unfold dcommit1, dis_allocated in *. destruct (d_template d).
+  - rewrite Hg. eexists; reflexivity.
+  - destruct (mem (d_name d) (t_pre t)); [discriminate|].
+    destruct (mem (d_name d) (t_bync t n it)) eqn:Hb.
+    + exfalso. apply mem_In in Hb. destruct (Hinv _ _ _ Hb) as [its [Em Hi]]. rewrite Em, String.eqb_refl in Hg. simpl in Hg.
+      apply mem_In in Hi. congruence.
+    + destruct (t_meta t (d_name d)) as [[n' its]|]; [|eexists; reflexivity].
+      destruct (negb (String.eqb n' n)); [discriminate|]. rewrite Hg. eexists; reflexivity.
+Qed.
+
+Lemma dcommit1_keeps_free : forall t n it d t1 d2 it2, dcommit1 t n it d = Some t1 ->
+  (String.eqb it2 it && String.eqb (d_name d2) (d_name d) && Bool.eqb (d_template d2) (d_template d)) = false ->
+  dis_allocated t d2 n it2 = false -> dis_allocated t1 d2 n it2 = false.
+Proof.
+  intros t n it d t1 d2 it2 H Hne Hfree. unfold dcommit1 in H. unfold dis_allocated in *.
+  destruct (d_template d) eqn:Td.
+  - destruct (mem (d_name d) (t_tmpl t n it)); [discriminate|]. inversion H; subst t1; clear H. simpl.
+    destruct (d_template d2) eqn:Td2; [|exact Hfree]. unfold set2. rewrite String.eqb_refl. simpl.
+    destruct (String.eqb it2 it) eqn:Ei; [|exact Hfree]. apply String.eqb_eq in Ei. subst it2. simpl in Hne.
+    rewrite ?andb_true_r in Hne.
+    change (mem (d_name d2) (d_name d :: t_tmpl t n it)) with (String.eqb (d_name d2) (d_name d) || mem (d_name d2) (t_tmpl t n it)).
+    rewrite Hne. exact Hfree.
+  - destruct (mem (d_name d) (t_bync t n it)); [discriminate|].
+    assert (Hcase : forall its0, t_meta t (d_name d) = None \/ t_meta t (d_name d) = Some (n, its0) ->
+              (t_meta t (d_name d) = None -> its0 = []) ->
+              t1 = mkT (t_pre t) (upd (t_meta t) (d_name d) (Some (n, it :: its0))) (set2 (t_bync t) n it (d_name d :: t_bync t n it)) (t_tmpl t) ->
+              (if d_template d2 then mem (d_name d2) (t_tmpl t1 n it2)
+               else if mem (d_name d2) (t_pre t1) then true
+               else match t_meta t1 (d_name d2) with Some (n', its) => if negb (String.eqb n' n) then true else mem it2 its | None => false end) = false).
+    { intros its0 Hm Hnil Ht1. subst t1. simpl. destruct (d_template d2) eqn:Td2; [exact Hfree|].
+      destruct (mem (d_name d2) (t_pre t)); [discriminate|]. unfold upd. destruct (String.eqb (d_name d2) (d_name d)) eqn:En; [|exact Hfree].
+      rewrite String.eqb_refl. simpl. simpl in Hne. rewrite !andb_true_r in Hne. apply String.eqb_eq in En.
+      unfold mem. simpl. fold (mem it2 its0). rewrite Hne. simpl.
+      destruct Hm as [Hm|Hm].
+      - rewrite (Hnil Hm). reflexivity.
+      - rewrite En, Hm, String.eqb_refl in Hfree. simpl in Hfree. exact Hfree. }
+    destruct (t_meta t (d_name d)) as [[n' its]|] eqn:Em.
+    + destruct (String.eqb n' n) eqn:En; simpl in H; [|discriminate]. apply String.eqb_eq in En. subst n'. destruct (mem it its); [discriminate|].
+      inversion H; subst t1. apply (Hcase its); [right; reflexivity | discriminate | reflexivity].
+    + inversion H; subst t1. apply (Hcase []); [left; reflexivity | reflexivity | reflexivity].
+Qed.
+
+Lemma guarded_commit_l_total : forall l t n, DInv t -> guarded_l t n l = true -> exists t', dcommit_l t n l = Some t'.
+Proof.
+  induction l as [|[it d] r IH]; intros t n Hinv Hg; simpl in *; [eexists; reflexivity|].
+  apply andb_prop in Hg. destruct Hg as [Hg Hr]. apply andb_prop in Hg. destruct Hg as [Hfree Hnd].
+  apply negb_true_iff in Hfree. apply negb_true_iff in Hnd.
+  destruct (dcommit1_guarded t n it d Hinv Hfree) as [t1 E1]. rewrite E1. apply IH; [eapply dcommit1_inv; eauto|].
+  clear IH.
+  revert Hr Hnd. induction r as [|[it2 d2] r2 IHr]; intros Hr Hnd; simpl in *; [reflexivity|].
+  apply andb_prop in Hr. destruct Hr as [Hr1 Hr2]. apply andb_prop in Hr1. destruct Hr1 as [Hf2 Hnd2].
+  apply orb_false_elim in Hnd. destruct Hnd as [Hne Hnd].
+  apply andb_true_intro. split; [apply andb_true_intro; split|].
+  - apply negb_true_iff. apply negb_true_iff in Hf2. eapply dcommit1_keeps_free; eauto.
+  - exact Hnd2.
+  - apply IHr; assumption.
+Qed.
+
+(* ==================================================================================================== *)
+(* the DRA oracles decide the specification                                                            *)
+(* ==================================================================================================== *)
+From KV Require Import C17.Spec C17.DraSpec.
+
+Lemma final_ok_b_spec : forall pre budgets tbudgets recs,
+  final_ok_b pre budgets tbudgets recs = true <-> final_ok pre budgets tbudgets recs.
+Proof.
+  intros pre budgets tbudgets recs. unfold final_ok_b, final_ok. rewrite !andb_true_iff, !forallb_forall. split.
+  - intros [[[[H1 H2] H3] H4] H5]. repeat split.
+    + intros a b Ha Hb Hex Hta Htb Hd. specialize (H1 a Ha). rewrite forallb_forall in H1. specialize (H1 b Hb).
+      rewrite Hex, Hta, Htb, Hd, String.eqb_refl in H1. simpl in H1. apply String.eqb_eq. exact H1.
+    + intros a Ha Hex. specialize (H2 a Ha). rewrite Hex in H2. simpl in H2. apply Nat.eqb_eq. exact H2.
+    + intros a Ha Hex Hta Hin. specialize (H3 a Ha). rewrite Hex, Hta in H3. simpl in H3. apply negb_true_iff in H3.
+      apply mem_In in Hin. congruence.
+    + intros k b Hin. specialize (H4 (k, b) Hin). simpl in H4. apply Z.leb_le. exact H4.
+    + intros k b n it Hin Hn Hit. specialize (H5 (k, b) Hin). simpl in H5. rewrite forallb_forall in H5. specialize (H5 n Hn).
+      rewrite forallb_forall in H5. apply Z.leb_le. apply H5. exact Hit.
+  - intros [H1 [H2 [H3 [H4 H5]]]]. repeat split.
+    + intros a Ha. apply forallb_forall. intros b Hb.
+      destruct (r_excl a) eqn:Hex; [|reflexivity]. destruct (r_tmpl a) eqn:Hta; [reflexivity|]. destruct (r_tmpl b) eqn:Htb; [reflexivity|].
+      simpl. destruct (String.eqb (r_dev a) (r_dev b)) eqn:Hd; [|reflexivity]. simpl. apply String.eqb_eq in Hd. apply String.eqb_eq.
+      apply (H1 a b Ha Hb Hex Hta Htb Hd).
+    + intros a Ha. destruct (r_excl a) eqn:Hex; [|reflexivity]. simpl. apply Nat.eqb_eq. apply H2; assumption.
+    + intros a Ha. destruct (r_excl a) eqn:Hex; [|reflexivity]. destruct (r_tmpl a) eqn:Hta; [reflexivity|]. simpl.
+      apply negb_true_iff. apply mem_false. apply H3; assumption.
+    + intros [k b] Hin. simpl. apply Z.leb_le. apply H4. exact Hin.
+    + intros [k b] Hin. simpl. apply forallb_forall. intros n Hn. apply forallb_forall. intros it Hit. apply Z.leb_le. eapply H5; eauto.
+Qed.
+
+Lemma budgets_ok_b_spec : forall rem infl capb tused tb,
+  budgets_ok_b rem infl capb tused tb = true <-> budgets_ok rem infl capb tused tb.
+Proof.
+  intros rem infl capb tused tb. unfold budgets_ok_b, budgets_ok. rewrite !andb_true_iff, !forallb_forall. split.
+  - intros [[H1 H2] H3]. repeat split.
+    + intros k v Hin. specialize (H1 (k, v) Hin). simpl in H1. apply Z.leb_le. exact H1.
+    + intros k v Hin. specialize (H2 (k, v) Hin). simpl in H2. destruct (assoc k capb); [apply Z.leb_le; exact H2 | discriminate].
+    + intros n it k v Hin. specialize (H3 (n, it, k, v) Hin). simpl in H3. destruct (assoc k tb); [apply Z.leb_le; exact H3 | discriminate].
+  - intros [H1 [H2 H3]]. repeat split.
+    + intros [k v] Hin. simpl. apply Z.leb_le. eapply H1; eauto.
+    + intros [k v] Hin. simpl. specialize (H2 k v Hin). destruct (assoc k capb); [apply Z.leb_le; exact H2 | contradiction].
+    + intros [[[n it] k] v] Hin. simpl. specialize (H3 n it k v Hin). destruct (assoc k tb); [apply Z.leb_le; exact H3 | contradiction].
+Qed.
+
+Definition lrun (ops : list lop) : ledger := fold_left lstep ops linit.
+
+Lemma counters_nonnegative_l : forall rem0 ns ops, NoDup ns -> (forall o, In o ops -> In (lop_nc o) ns) ->
+  (forall k, 0 <= rem0 k) -> lguarded rem0 linit ops ->
+  forall k, 0 <= rem0 k - l_used (lrun ops) k /\ l_used (lrun ops) k = lsum (fun n => pmax (lrun ops) n k) ns.
+Proof.
+  intros rem0 ns ops Hnd Hn Hb Hg k. destruct (budgets_respected_l rem0 ns ops Hnd Hn Hb Hg) as [Hu [Hr _]]. split; [apply Hr | apply Hu].
+Qed.
+
+Lemma capacity_within_l : forall capacity pre ns ops, NoDup ns -> (forall o, In o ops -> In (lop_nc o) ns) ->
+  (forall k, 0 <= pre k <= capacity k) -> lguarded (fun k => capacity k - pre k) linit ops ->
+  forall k, pre k + l_used (lrun ops) k <= capacity k /\ 0 <= l_used (lrun ops) k /\
+            l_used (lrun ops) k = lsum (fun n => pmax (lrun ops) n k) ns.
+Proof.
+  intros capacity pre ns ops Hnd Hn Hb Hg k.
+  destruct (budgets_respected_l (fun k => capacity k - pre k) ns ops Hnd Hn (fun k => ltac:(specialize (Hb k); lia)) Hg) as [Hu [_ Hw]].
+  specialize (Hw k). fold (lrun ops) in *. split; [lia|]. split; [lia | apply Hu].
+Qed.
+
+Lemma guarded_commit_total : forall t n its, DInv t -> guarded t n its = true -> exists t', dcommit t n its = Some t'.
+Proof. intros t n its Hinv Hg. unfold dcommit, guarded in *. apply guarded_commit_l_total; assumption. Qed.
